@@ -478,7 +478,14 @@ class Engine:
     def _discharge(self, goal):
         s = self.path.solver
         neg = z3.Not(goal)
+        t_ob = getattr(self, 'z3_obligation_timeout_ms', None)
+        if t_ob:
+            # tasks whose obligations are sequence-heavy: z3's sequence solver either answers at once or not at all;
+            # give up early and let cvc5 decide (below)
+            s.set('timeout', t_ob)
         r = s.check(neg)
+        if t_ob:
+            s.set('timeout', Z3_TIMEOUT_MS)
         if r == z3.unsat:
             if self.second_opinion and self.report.second['asked'] < self.second_opinion:
                 # thorough tier: independent second opinion from cvc5 on the same query
